@@ -78,6 +78,30 @@ def check(env, rep, tier):
                 okr = False
             if "served" in marks and blockutil.last_more(s) == 1 and "cache:Some" not in marks and "err" not in ret:
                 okr = False
+        # early negotiation: every reply the application did not fragment itself goes through the size negotiation (which
+        # looks at the Block2 value remembered from the request) - no shortcut in front of it decides "fits, leave it alone"
+        def setup_nob2(tr_, I_, st_):
+            def m_get_option(I__, s_, call):
+                a, o = call.args[0], call.args[1]
+                if isinstance(a, RefV) and a.place == tr_.resp_msg and isinstance(o, EnumV) and len(o.variants) == 1 \
+                        and prog.adts["packet::CoapOption"]["variants"][next(iter(o.variants))]["name"] == "Block2":
+                    from summaries import mk_none
+                    return [(s_, mk_none(call.dest_ty))]
+                return None
+            I_.extra_models["packet::Packet::get_option"] = m_get_option
+        trn = Trace(prog, "intercept_response", setup=setup_nob2)
+        n_un, bad_un = 0, 0
+        for s, rv in trn.res:
+            if "err" in trn.ret_kind(rv):
+                continue
+            n_un += 1
+            marks = set(k[1] for k in s.ghost if isinstance(k, tuple) and k[0] == "inj")
+            if "negotiated" not in marks:
+                bad_un += 1
+        rep.ob("C08.5", "every-reply-negotiated", bad_un == 0 and n_un >= 2,
+               "intercept_response returns on %d of %d paths without having consulted the size negotiation (reply prepared, no Block2 option of the "
+               "application's own): a client that asked for small blocks in its first request gets the body whole" % (bad_un, n_un), site,
+               sample={"rule": "C08.5", "paths": n_un})
         rep.ob("C08.2", "response-return", okr, "intercept_response: a path that fragments the reply does not cache it and return Ok(true)", site)
         # ------------------------------------------------ request side
         rb = req_side[0]
